@@ -57,6 +57,11 @@ theorem dump_readline_exact (B : Nat) (st : Rd) :
 example : (dumpReadLine 16 (Rd.ofSrc [⟨[72, 105, 13, 10, 88], none⟩])) =
     (⟨[72, 105], false, none⟩, ⟨[88], none, []⟩, [72, 105, 13, 10]) := by decide
 
+/-- The model's recursion fuel is never what ends a `ReadSlice`: the `stuck` marker is
+unreachable, every model answer is a Go answer. -/
+theorem model_readslice_total (B : Nat) (st : Rd) (hs : st.err ≠ some .stuck) :
+    (readSlice B st).1.err ≠ some .stuck := readSlice_not_stuck B st hs
+
 theorem plain_readline_dumps_nothing (B : Nat) (st : Rd) : (plainReadLine B st).2.2 = [] := by
   simp [plainReadLine]
 
@@ -316,6 +321,26 @@ theorem routing (o : Opts) (e : Exchange) (p : Part) :
 example : dumperEvents { requestHeader := true, responseBody := true, output := some 1,
                          responseBodyOutput := some 2 } ⟨[71], [1], [72], [98]⟩
     = [⟨1, .reqHeader, [71]⟩, ⟨2, .respBody, [98]⟩] := by decide
+
+/-- **presets_exact**: a convenience setter switches off exactly the parts it names and never
+switches a part on; nothing else about routing changes. -/
+theorem presets_exact (p : Preset) (o : Opts) (q : Part) :
+    (p.apply o).enabled q = (o.enabled q && !(p.off.contains q)) := by
+  cases p <;> cases q <;> simp [Preset.apply, Preset.off, Opts.enabled]
+
+theorem presets_only_narrow (ps : List Preset) (o : Opts) (q : Part) :
+    (applyPresets ps o).enabled q = true → o.enabled q = true := by
+  induction ps generalizing o with
+  | nil => simp [applyPresets]
+  | cons p ps ih =>
+    intro h
+    have := ih (p.apply o) h
+    rw [presets_exact] at this
+    simp only [Bool.and_eq_true] at this
+    exact this.1
+
+example : (applyPresets [.withoutRequestBody, .withoutResponse] (defaultOpts stdout)).enabled .reqHeader = true ∧
+    (applyPresets [.withoutRequestBody, .withoutResponse] (defaultOpts stdout)).enabled .reqBody = false := by decide
 
 /-! ### each selected part exactly once, nothing else -/
 
